@@ -7,6 +7,8 @@
    Definitions only; proofs are in Proofs/C09*.v.  Exact Z arithmetic; Go's big.Int.Div is Euclidean
    division, which for the positive divisors used here is Coq's floor division [/]. *)
 From Coq Require Import List ZArith Bool NArith.
+From Coq Require String.
+Import String.StringSyntax.
 From GQ Require Import Lib.Key Lib.SMap Generated.C09Params.
 Import ListNotations.
 Local Open Scope Z_scope.
@@ -432,6 +434,255 @@ Definition valid_child_fast (e : env) (p c : header) : bool :=
   rule_number p c.
 
 (* ------------------------------------------------------------------------------------------ *)
+(** * 7b. after the KawPow fork: share-difficulty fields, fork-aware base fee                  *)
+
+(* every fork switch reads PrimeTerminusNumber().Uint64(): the low 64 bits *)
+Definition ptn64 (ptn : Z) : Z := u64 ptn.
+Definition post_fork (ptn : Z) : bool := kawpow_fork_block <=? ptn64 ptn.
+
+(* the share data of a header that carries them (after the fork ProtoDecode insists on all nine) and what
+   hc.CountWorkSharesByAlgo finds in its body (sha / scrypt shares, and those of them with an out-of-scope coinbase) *)
+Record pshares := mkPS {
+  ps_sha_diff : Z; ps_sha_count : Z; ps_sha_uncled : Z;
+  ps_scr_diff : Z; ps_scr_count : Z; ps_scr_uncled : Z;
+  ps_sha_target : Z; ps_scr_target : Z; ps_kawpow : Z;
+  ps_n_sha : Z; ps_n_sha_uncled : Z; ps_n_scr : Z; ps_n_scr_uncled : Z
+}.
+
+(* the share fields of a child as verifyHeader reads them: None = nil *)
+Record shares := mkSh {
+  sh_sha_diff : option Z; sh_sha_count : option Z; sh_sha_uncled : option Z;
+  sh_scr_diff : option Z; sh_scr_count : option Z; sh_scr_uncled : option Z;
+  sh_sha_target : option Z; sh_scr_target : option Z; sh_kawpow : option Z
+}.
+
+(* the exponential moving average used for the share counts: (old * (n-1) + new) / n *)
+Definition ema (n old new : Z) : Z := (old * (n - 1) + new) / n.
+
+(* hc.CalculatePowDiffAndCount(parent, header, powId) for powId = SHA_BTC/SHA_BCH ([sha] = true) or Scrypt; [ptn] =
+   header.PrimeTerminusNumber(), [pdiff] = parent.Difficulty(); None = BinaryLog panics (share difficulty <= 0) *)
+Definition pow_diff_and_count (sha : bool) (ptn pdiff : Z) (ps : pshares) : option (Z * Z * Z) :=
+  if ptn64 ptn =? kawpow_fork_block then
+    let rate := pdiff / duration_limit_default in         (* params.DurationLimit, not the node's powConfig *)
+    if sha then Some (rate * initial_sha_diff_multiple * sha_block_time / big3, target_sha_shares, 0)
+    else Some (rate * initial_scrypt_diff_multiple * scrypt_block_time / big3, target_sha_shares, 0)
+  else
+    let late := conversion_stability_fork_block <=? ptn64 ptn in
+    let n := if late then new_work_share_ema_blocks else work_share_ema_blocks in
+    let d := if sha then ps_sha_diff ps else ps_scr_diff ps in
+    let cnt := if sha then ps_sha_count ps else ps_scr_count ps in
+    let unc := if sha then ps_sha_uncled ps else ps_scr_uncled ps in
+    let num := (if sha then ps_n_sha ps else ps_n_scr ps) * big2e32 in
+    let uncs := (if sha then ps_n_sha_uncled ps else ps_n_scr_uncled ps) * big2e32 in
+    let err := num - (if sha then ps_sha_target ps else ps_scr_target ps) in
+    let adj := if late then new_pow_diff_adjustment_factor else pow_diff_adjustment_factor in
+    if d <=? 0 then None else
+    let nd := err * d * Z.log2 d / adj / big2e32 + d in
+    let lb := if sha then sha_diff_lower_bound else scrypt_diff_lower_bound in
+    let nd := if kquai_reset_after_kawpow_fork_block <=? ptn64 ptn then (if nd <? lb then lb else nd) else nd in
+    Some (nd, ema n cnt num, ema n unc uncs).
+
+(* hc.CalculateShareTarget(parent, header); None = division by a zero parent difficulty *)
+Definition share_target (ptn pdiff : Z) (ps : pshares) : option Z :=
+  if ptn64 ptn =? kawpow_fork_block then Some target_sha_shares else
+  if ptn64 ptn <? inclusion_depth_change_block then
+    if pdiff <=? 0 then None else
+    let maxs := ps_kawpow ps * max_subsidy_numerator / max_subsidy_denominator in
+    let t := (pdiff - maxs) * ps_sha_target ps / pdiff / blocks_per_day + ps_sha_target ps in
+    Some (Z.min (Z.max t target_sha_shares) max_sha_shares)
+  else if ptn64 ptn <? inclusion_depth_change_block + inclusion_depth_update_period then
+    Some (target_sha_shares + (max_sha_shares - target_sha_shares) * (ptn64 ptn - inclusion_depth_change_block)
+                              / inclusion_depth_update_period)
+  else Some max_sha_shares.
+
+(* hc.CalculateKawpowDifficulty(parent, header) for a parent without AuxPow (a ProgPoW block of the transition period; the
+   AuxPow branch - liveness of the template, the donor header's bits - is not modelled) *)
+Definition kawpow_difficulty (ptn : Z) (ps : pshares) : Z :=
+  if ptn64 ptn =? kawpow_fork_block then initial_kawpow_diff else ps_kawpow ps.
+
+(* the nine values in the order verifyHeader compares them *)
+Definition expected_shares (ptn pdiff : Z) (ps : pshares) : option (list Z) :=
+  match pow_diff_and_count true ptn pdiff ps, pow_diff_and_count false ptn pdiff ps, share_target ptn pdiff ps with
+  | Some (d1, c1, u1), Some (d2, c2, u2), Some t => Some [d1; c1; u1; d2; c2; u2; t; t; kawpow_difficulty ptn ps]
+  | _, _, _ => None
+  end.
+
+Definition shares_list (cs : shares) : list (option Z) :=
+  [sh_sha_diff cs; sh_sha_count cs; sh_sha_uncled cs; sh_scr_diff cs; sh_scr_count cs; sh_scr_uncled cs;
+   sh_sha_target cs; sh_scr_target cs; sh_kawpow cs].
+Definition is_none (a : option Z) : bool := match a with None => true | Some _ => false end.
+Fixpoint opts_eqb (a : list (option Z)) (b : list Z) : bool :=
+  match a, b with
+  | [], [] => true
+  | x :: a', y :: b' => opt_eqb x y && opts_eqb a' b'
+  | _, _ => false
+  end.
+
+(* the share rules of verifyHeader: after the fork each of the nine fields equals the value derived from the parent, before
+   the fork each of them is nil ([ptn] is the CHILD's prime terminus number; a panic of a helper counts as a rejection) *)
+Definition rule_shares (ptn pdiff : Z) (ps : pshares) (cs : shares) : bool :=
+  if post_fork ptn then
+    match expected_shares ptn pdiff ps with
+    | Some want => opts_eqb (shares_list cs) want
+    | None => false
+    end
+  else forallb is_none (shares_list cs).
+
+(* misc.KawPowEquivalentDifficulty / ShaAnchoredEquivalentDifficulty / ForkAwareKawPowEquivalentDifficulty *)
+Definition kawpow_equivalent_difficulty (diff sha_count scr_count : Z) : Z :=
+  let expected := (expected_workshares_per_block + 1) * big2e32 in
+  let total := Z.min (scr_count + sha_count) (expected - big2e32) in
+  diff * expected / (expected - total).
+Definition fork_aware_difficulty (ptn diff : Z) (ps : pshares) : Z :=
+  if ptn64 ptn <? sha_equivalent_difficulty_fork_block
+  then kawpow_equivalent_difficulty diff (ps_sha_count ps) (ps_scr_count ps)
+  else let n := ps_sha_diff ps / initial_sha_diff_multiple in
+       kawpow_equivalent_difficulty
+         (if n <? min_difficulty_for_sha_equivalent_difficulty then min_difficulty_for_sha_equivalent_difficulty else n)
+         (ps_sha_count ps) (ps_scr_count ps).
+
+(* misc.CalculateQuaiReward / CalculateQiReward / QiToQuai in both regimes ([ptn] = the block's own prime terminus number;
+   big.Int.Quo truncates: [Z.quot]); None = LogBig panics *)
+Definition reward_difficulty (ptn diff : Z) (ps : pshares) : Z :=
+  if post_fork ptn then fork_aware_difficulty ptn diff ps else diff.
+Definition quai_reward_x (ptn diff er : Z) (ps : pshares) : option Z :=
+  let d := reward_difficulty ptn diff ps in
+  if d <=? 0 then None else
+  let ld := log_big d in
+  let ld := if kquai_reset_after_kawpow_fork_block <=? ptn64 ptn then ld - log_big kquai_difficulty_divisor else ld in
+  let r := Z.quot (er * ld) big2e64 in
+  Some (if r =? 0 then 1 else r).
+Definition qi_reward_x (ptn diff number : Z) (ps : pshares) : Z :=
+  let r := Z.quot (reward_difficulty ptn diff ps) (one_over_kqi number) in if r =? 0 then 1 else r.
+
+(* hc.CalcBaseFee(block) in both regimes *)
+Definition calc_base_fee_x (is_genesis parent_is_genesis : bool) (er_pt diff number ptn : Z) (ps : pshares) : option Z :=
+  if is_genesis then Some 0 else
+  let er := if parent_is_genesis then initial_exchange_rate else er_pt in
+  match quai_reward_x ptn diff er ps with
+  | None => None
+  | Some q => Some (Z.quot (q * min_base_fee_in_qits) (qi_reward_x ptn diff number ps) / tx_gas)
+  end.
+
+Definition expected_base_fee_x (e : env) (p : header) (ps : pshares) : option Z :=
+  calc_base_fee_x (h_genesis p) (match e_gp e with GpGenesis => true | _ => false end) (e_er_pt e) (h_diff p) (num64 p)
+                  (h_pt_num p) ps.
+Definition rule_base_fee_x (e : env) (p c : header) (ps : pshares) : bool :=
+  opt_eqb (expected_base_fee_x e p ps) (h_base_fee c).
+
+(* CheckPowIdValidity for a header WITHOUT AuxPow (the only kind the harness fabricates): allowed before the fork and in
+   the transition period after it *)
+Definition rule_pow_id_no_auxpow (ptn : Z) : bool := ptn64 ptn <=? kawpow_fork_block + kawpow_transition_period.
+
+(* every modelled rule except the base fee (the order of CalcOrder(parent) evaluated once) *)
+Definition valid_child_core (e : env) (p c : header) : bool :=
+  let co := calc_order p in
+  rule_time_future e c && rule_time_parent p c && rule_difficulty e p c && rule_parent_order_of co &&
+  (expected_parent_entropy_of co p =? h_pe_z c) && (expected_parent_delta_of co p =? h_pd_z c) &&
+  (expected_parent_uncled_delta_of co p =? h_pud_z c) &&
+  opt_eqb (expected_expansion_of co e) (h_expansion c) && rule_gas e p c && rule_state p c &&
+  ((expected_pt_hash_of co p =? h_pt_hash c) && (expected_pt_num_of co p =? h_pt_num c)) &&
+  rule_number p c.
+
+(* verifyHeader in a zone node in BOTH fork regimes, for headers without AuxPow: [ps] = the parent's share data (unused
+   when the child sits on the fork block itself or before it), [cs] = the child's share fields *)
+Definition valid_child_x (e : env) (p c : header) (ps : pshares) (cs : shares) : bool :=
+  valid_child_core e p c && rule_pow_id_no_auxpow (h_pt_num c) && rule_base_fee_x e p c ps &&
+  rule_shares (h_pt_num c) (h_diff p) ps cs.
+
+(* the rejection sites of verifyHeader in source order and what the model does with each: the first components must equal
+   the inventory generated from the source text (Generated/C09Params.v verify_header_sites_src) *)
+Inductive site_class :=
+| SModel        (* a rule of valid_child_x *)
+| SZoneOther    (* zone-context rule outside the model: kept satisfied, one monitor-only deviation each *)
+| SDomOnly      (* prime / region context only *)
+| SAuxPow.      (* only for headers with AuxPow *)
+Local Open Scope string_scope.
+Definition verify_header_sites : list (String.string * site_class) := [
+  ("extra-data too long", SZoneOther);
+  ("invalid header hash", SZoneOther);
+  ("ErrFutureBlock", SModel);
+  ("ErrOlderBlockTime", SModel);
+  ("invalid difficulty", SModel);
+  ("err<-CalcOrder", SModel);
+  ("order of the block is greater than the context", SModel);
+  ("block location is not in the same slice as the node location", SZoneOther);
+  ("invalid parent entropy", SModel);
+  ("invalid parent delta entropy", SModel);
+  ("invalid parent delta entropy", SModel);
+  ("invalid parent uncled sub delta entropy", SModel);
+  ("invalid parent uncled sub delta entropy", SModel);
+  ("invalid efficiency score", SDomOnly);
+  ("invalid threshold count", SDomOnly);
+  ("err<-ComputeEfficiencyScore", SDomOnly);
+  ("invalid efficiency score", SDomOnly);
+  ("invalid threshold count", SDomOnly);
+  ("invalid etx eligible slices", SDomOnly);
+  ("invalid prime state root", SDomOnly);
+  ("invalid region state root", SDomOnly);
+  ("invalid miner difficulty", SDomOnly);
+  ("err<-ComputeExpansionNumber", SModel);
+  ("invalid expansion number", SModel);
+  ("Qi coinbase is not allowed before block", SZoneOther);
+  ("err<-CheckPowIdValidity", SModel);
+  ("err<-ExtractSignatureTimeFromCoinbase", SAuxPow);
+  ("auxpow header time", SAuxPow);
+  ("quai block time", SAuxPow);
+  ("coinbase seal hash not found in the auxpow", SAuxPow);
+  ("coinbase seal hash does not match uncle seal hash, expected", SAuxPow);
+  ("auxpow2 is shorter than a hash for scrypt powid", SAuxPow);
+  ("auxpow2 is empty for scrypt powid", SAuxPow);
+  ("coinbase seal hash does not match uncle aux merkle root, expected", SAuxPow);
+  ("err<-ExtractMerkleSizeAndNonceFromCoinbase", SAuxPow);
+  ("invalid merkle size", SAuxPow);
+  ("invalid merkle nonce", SAuxPow);
+  ("invalid merkle root in auxpow", SAuxPow);
+  ("invalid prev out point index and sequence in coinbase transaction", SAuxPow);
+  ("invalid auxpow signature", SAuxPow);
+  ("out-of-scope primary coinbase in the header", SZoneOther);
+  ("header lock byte", SZoneOther);
+  ("header data field is empty", SZoneOther);
+  ("lock byte header data", SZoneOther);
+  ("out-of-scope lockup contract in the header", SZoneOther);
+  ("out-of-scope beneficiary in the header", SZoneOther);
+  ("invalid gasLimit", SModel);
+  ("invalid gasUsed", SModel);
+  ("invalid gasLimit", SModel);
+  ("invalid stateUsed", SModel);
+  ("invalid StateLimit", SModel);
+  ("invalid baseFee", SModel);
+  ("invalid primeTerminusHash", SModel);
+  ("invalid primeTerminusNumber", SModel);
+  ("invalid sha difficulty", SModel);
+  ("invalid sha count", SModel);
+  ("invalid sha uncled", SModel);
+  ("invalid scrypt difficulty", SModel);
+  ("invalid scrypt count", SModel);
+  ("invalid scrypt uncled", SModel);
+  ("sha diff and count must be nil before kawpow fork block", SModel);
+  ("scrypt diff and count must be nil before kawpow fork block", SModel);
+  ("invalid sha share target", SModel);
+  ("invalid scrypt share target", SModel);
+  ("invalid kawpow difficulty", SModel);
+  ("sha share target must be nil before kawpow fork block", SModel);
+  ("scrypt share target must be nil before kawpow fork block", SModel);
+  ("kawpow difficulty must be nil before kawpow fork block", SModel);
+  ("ErrInvalidNumber", SModel)
+].
+Local Close Scope string_scope.
+Fixpoint strings_eqb (a b : list String.string) : bool :=
+  match a, b with
+  | [], [] => true
+  | x :: a', y :: b' => String.eqb x y && strings_eqb a' b'
+  | _, _ => false
+  end.
+Definition is_model_site (c : site_class) : bool := match c with SModel => true | _ => false end.
+Definition is_zone_other_site (c : site_class) : bool := match c with SZoneOther => true | _ => false end.
+Definition sites_match_source : bool := strings_eqb (map fst verify_header_sites) verify_header_sites_src.
+Definition modelled_sites : Z := Z.of_nat (length (filter (fun s => is_model_site (snd s)) verify_header_sites)).
+Definition zone_other_sites : Z := Z.of_nat (length (filter (fun s => is_zone_other_site (snd s)) verify_header_sites)).
+
+(* ------------------------------------------------------------------------------------------ *)
 (** * 8. the CalcOrder memo (hc.calcOrderCache)                                                *)
 
 Definition hkey (h : header) : key := [Z.to_N (h_hash h)].
@@ -686,6 +937,19 @@ Fixpoint ocos_eqb (a b : list (option co_result)) : bool :=
   | _, _ => false
   end.
 
+Fixpoint lz_eqb (a b : list Z) : bool :=
+  match a, b with
+  | [], [] => true
+  | x :: a', y :: b' => (x =? y) && lz_eqb a' b'
+  | _, _ => false
+  end.
+Definition olz_eqb (a b : option (list Z)) : bool :=
+  match a, b with
+  | Some x, Some y => lz_eqb x y
+  | None, None => true
+  | _, _ => false
+  end.
+
 Inductive case_body :=
 | CLog (n : Z) (obs : option Z)                       (* common.LogBig; None = panic *)
 | CIntr (powhash : Z) (obs : option Z)                (* common.IntrinsicLogEntropy *)
@@ -706,9 +970,16 @@ Inductive case_body :=
 | CCache (ops : list cache_op) (obs : list (option co_result))    (* history of CalcOrder calls / evictions *)
 | CHist (ctx : Z) (pool : list header) (ops : list (Z * Z)) (obs : list (option hist_res))
                                                       (* history of CalcOrder / Total / Delta / UncledDelta calls *)
-| CStore (e : env) (p c : header) (ops : list Z) (obs : list (option bool)).
+| CStore (e : env) (p c : header) (ops : list Z) (obs : list (option bool))
                                                       (* VerifyHeader / AppendHeader verdicts on c (stored parent p) in a
                                                          history of WriteBlock / purge / restart / commit *)
+| CShare (ptn pdiff : Z) (ps : pshares) (obs : option (list Z))
+                                                      (* CalculatePowDiffAndCount (sha, scrypt), CalculateShareTarget (twice),
+                                                         CalculateKawpowDifficulty on a parent without AuxPow; None = panic *)
+| CBaseFeeX (is_gen parent_gen : bool) (er diff number ptn : Z) (ps : pshares) (obs : option Z)
+                                                      (* hc.CalcBaseFee in both fork regimes *)
+| CVerifyX (e : env) (p c : header) (ps : pshares) (cs : shares) (obs : bool).
+                                                      (* hc.verifyHeader verdict, both fork regimes (headers without AuxPow) *)
 
 Definition case := (N * case_body)%type.
 
@@ -735,6 +1006,9 @@ Definition body_ok (b : case_body) : bool :=
   | CCache ops obs => ocos_eqb (cache_run [] ops) obs
   | CHist ctx pool ops obs => ohres_eqb (hist_run ctx [] (map (hist_decode pool) ops)) obs
   | CStore e p c ops obs => obools_eqb (store_run_fast e p c (map store_decode ops)) obs
+  | CShare ptn pdiff ps obs => olz_eqb (expected_shares ptn pdiff ps) obs
+  | CBaseFeeX g pg er d n ptn ps obs => oz_eqb (calc_base_fee_x g pg er d n ptn ps) obs
+  | CVerifyX e p c ps cs obs => Bool.eqb (valid_child_x e p c ps cs) obs
   end.
 
 Definition case_ok (c : case) : bool := body_ok (snd c).
@@ -764,3 +1038,18 @@ Definition entropy_targets_ok : bool :=
   (Z.of_nat (length prime_entropy_targets) =? 256) && (Z.of_nat (length region_entropy_targets) =? 256) &&
   forallb (fun t => 1 <=? t) prime_entropy_targets && forallb (fun t => 1 <=? t) region_entropy_targets &&
   (0 <? alpha_inverse).
+
+(* after the fork *)
+Definition fork_consts_ok : bool :=
+  (kquai_reset_after_kawpow_fork_block =? kawpow_fork_block) && (big2e32 =? 2 ^ 32) && (big3 =? 3) &&
+  (0 <? target_sha_shares) && (target_sha_shares <=? max_sha_shares) &&
+  (1 <? work_share_ema_blocks) && (1 <? new_work_share_ema_blocks) &&
+  (0 <? pow_diff_adjustment_factor) && (0 <? new_pow_diff_adjustment_factor) &&
+  (0 <? max_subsidy_denominator) && (0 <=? max_subsidy_numerator) && (0 <? duration_limit_default) &&
+  (0 <? inclusion_depth_update_period) && (0 <? initial_sha_diff_multiple) && (0 <? expected_workshares_per_block) &&
+  (kawpow_fork_block + kawpow_transition_period <? inclusion_depth_change_block) &&
+  (inclusion_depth_change_block + inclusion_depth_update_period <? 2 ^ 64) &&
+  (kawpow_fork_block <? sha_equivalent_difficulty_fork_block) &&
+  (sha_equivalent_difficulty_fork_block <=? conversion_stability_fork_block) &&
+  (0 <? sha_diff_lower_bound) && (0 <? scrypt_diff_lower_bound) && (0 <? kquai_difficulty_divisor) &&
+  (0 <? initial_kawpow_diff) && (0 <? blocks_per_day).
